@@ -1,4 +1,7 @@
 import Mps.Judge
+import MpsProps.C01alg
+import MpsProps.C02alg
+import MpsProps.AlgGen
 /-
   C03 — property theorems: see MpsProps/C01alg.lean (verify-guarded outputs, share checks) and C02alg.lean
   (Feldman-checked sharings are consistent); wired below once merged.
